@@ -36,6 +36,11 @@ func readArrayWithTypePaths(ctx context.Context, read stdio.Io, callback func(an
 		return err
 	}
 
+	if len(b) == 0 {
+		// bytes.Split would return one empty element for the empty list
+		return nil
+	}
+
 	split := bytes.Split(b, pathsSeparator)
 	for i := range split {
 
